@@ -141,6 +141,15 @@ InRowsKinds(e) ==   \* WHERE form: e.rows = ids returned
                 \cup Flag("in-dup", {i \in got : Count(e.rows, i) > 1}),
       exp |-> exp]
 
+NotInRowsKinds(e) ==   \* WHERE NOT (x IN (..)): e.rows = ids returned = the rows where IN is FALSE
+  LET D == Range(e.L)
+      M == Range(e.list)
+      exp == {i \in D : InExp(i, M) = 0}
+      got == Range(e.rows)
+  IN [kinds |-> Flag("notin-missing", exp \ got) \cup Flag("notin-extra", got \ exp)
+                \cup Flag("in-dup", {i \in got : Count(e.rows, i) > 1}),
+      exp |-> exp]
+
 PairKinds(e) ==     \* equi-join: e.pairs = <<left id, right id>>
   LET exp == {p \in Range(e.L) \X Range(e.R) : EqT(p[1], p[2])}
       got == Range(e.pairs)
@@ -156,6 +165,7 @@ Verdict(e) ==
          [] e.k = "count" -> CountKinds(e)
          [] e.k = "in" -> InKinds(e)
          [] e.k = "inrows" -> InRowsKinds(e)
+         [] e.k = "notinrows" -> NotInRowsKinds(e)
          [] e.k = "pairs" -> PairKinds(e)
 
 Judge(e) ==
